@@ -69,7 +69,7 @@ def tensor_attr(it: Any, v: TV, attr: str, node: Any) -> Any:
     A = _A()
     if v.kind == "tensor":
         if attr == "shape":
-            return v.shape if v.shape is not None else Unknown(f"shape of {fmt(v.term)}")
+            return v.shape if v.shape is not None else TV(T("attr", (v.term, "shape")), kind="opaque")
         if attr == "ndim":
             return len(v.shape) if v.shape is not None else Unknown("ndim")
         if attr in ("dtype", "device", "requires_grad", "is_leaf", "grad", "layout"):
